@@ -202,6 +202,10 @@ def can_run_is_the_pattern_loop(ctx):
 
 
 def run(ctx):
+    from .C13 import update_removes_then_adds
+    update_removes_then_adds(ctx)
+    from .C06 import action_context_is_replaced_whole
+    action_context_is_replaced_whole(ctx, "C07")
     deferred_victim_is_the_selected_candidate(ctx)
     from .C15 import cached_slot_types_agree
     cached_slot_types_agree(ctx)
